@@ -494,8 +494,6 @@ func c11IntOps(all bool) []c11Op {
 		return ops
 	}
 	return append(ops, []c11Op{
-		{"int(1)", int(1), true, true},
-		{"int(7)", int(7), true, true},
 		{"int(math.MaxInt64)", int(math.MaxInt64), true, true},
 		{"int(math.MinInt64)", int(math.MinInt64), true, true},
 		{"int8(math.MinInt8)", int8(math.MinInt8), true, true},
@@ -505,10 +503,7 @@ func c11IntOps(all bool) []c11Op {
 		{"int32(math.MinInt32)", int32(math.MinInt32), true, true},
 		{"int32(math.MaxInt32)", int32(math.MaxInt32), true, true},
 		{"int64(math.MaxInt64)", int64(math.MaxInt64), true, true},
-		{"int64(-1)", int64(-1), true, true},
-		{"uint(0)", uint(0), true, true},
 		{"uint(math.MaxUint64)", uint(math.MaxUint64), true, true},
-		{"uint8(0)", uint8(0), true, true},
 		{"uint16(math.MaxUint16)", uint16(math.MaxUint16), true, true},
 		{"uint32(math.MaxUint32)", uint32(math.MaxUint32), true, true},
 		{"uint64(1<<63)", uint64(1 << 63), true, true},
@@ -523,8 +518,6 @@ func c11IntOps(all bool) []c11Op {
 		{"rune(0xFFFD)", rune(0xFFFD), true, true},
 		{"rune(0x203A)", rune(0x203A), true, true},
 		{"rune('\\n')", rune('\n'), true, true},
-		{"rune(0x7f)", rune(0x7f), true, true},
-		{"int64(0x10FFFF+1)", int64(0x110000), true, true},
 	}...)
 }
 
